@@ -585,7 +585,16 @@ fn decode<'a>(codec: &Codec, sections: &[&'a dyn Data<'a>]) -> BoxedData<'a> {
     let mut section_stack: Vec<BoxedData<'a>> = vec![sections[0].slice_box(0, sections[0].len())];
     for codec_op in codec.ops() {
         let arg0 = section_stack.first().unwrap();
-        let decoded = match codec_op {
+        // Element-wise ops applied after `Nullable` have to carry the null map over.
+        let arg0_present = match codec_op {
+            CodecOp::Add(..) | CodecOp::Delta(..) | CodecOp::ToI64(..)
+                if arg0.get_type().is_nullable() =>
+            {
+                Some(arg0.cast_ref_null_map().to_vec())
+            }
+            _ => None,
+        };
+        let mut decoded = match codec_op {
             CodecOp::Nullable => {
                 let present = section_stack.pop().unwrap();
                 let mut data = section_stack.pop().unwrap();
@@ -815,6 +824,9 @@ fn decode<'a>(codec: &Codec, sections: &[&'a dyn Data<'a>]) -> BoxedData<'a> {
             CodecOp::UnhexpackStrings(_, _) => todo!(),
             CodecOp::Unknown => todo!(),
         };
+        if let Some(present) = arg0_present {
+            decoded = decoded.make_nullable(&present);
+        }
         section_stack.pop();
         section_stack.push(decoded);
     }
